@@ -199,7 +199,24 @@ def write_evidence(prop, tier, level, coverage, assumptions, wall, violations, e
           "assumptions": assumptions, "wall_s": round(wall, 2), "violations": violations}
     if extra:
         ev.update(extra)
-    json.dump(ev, open(os.path.join(d, f"{prop}.json"), "w"), indent=1, sort_keys=True)
+
+    def shrink(x, depth=0):
+        """samples are there to show what a case looks like, not to store it: long strings and long lists are cut"""
+        if isinstance(x, str):
+            return x if len(x) <= 600 else x[:600] + f"… (+{len(x) - 600} chars)"
+        if isinstance(x, list):
+            cut = [shrink(v, depth + 1) for v in x[:12]]
+            return cut + ([f"… (+{len(x) - 12} more)"] if len(x) > 12 else [])
+        if isinstance(x, dict):
+            return {k: shrink(v, depth + 1) for k, v in x.items()}
+        return x
+    if isinstance(ev.get("coverage"), dict) and "samples" in ev["coverage"]:
+        ev["coverage"]["samples"] = shrink(ev["coverage"]["samples"])
+    text = json.dumps(ev, indent=1, sort_keys=True)
+    if len(text) > 1_500_000 and isinstance(ev.get("coverage"), dict):
+        ev["coverage"]["samples"] = ["dropped: the evidence record would have exceeded 1.5 MB"]
+        text = json.dumps(ev, indent=1, sort_keys=True)
+    open(os.path.join(d, f"{prop}.json"), "w").write(text)
 
 
 class Result:
